@@ -5,7 +5,10 @@ import (
 	"context"
 	"encoding/json"
 	"fmt"
+	"math/big"
 	"net/http/httptest"
+	"regexp"
+	"strconv"
 	"strings"
 	"unicode/utf8"
 )
@@ -305,7 +308,7 @@ type httpCase struct {
 	Batch       bool     `json:"batch"`
 	Oracle      string   `json:"oracle_fail,omitempty"`
 	Escaped     string   `json:"escaped_panic,omitempty"`
-	OutOfDomain bool     `json:"out_of_domain,omitempty"` // body is not valid UTF-8: outside the model's fidelity domain (still run, still judged by the direct oracle)
+	OutOfDomain bool     `json:"out_of_domain,omitempty"` // body is not valid UTF-8, or carries a numeric id that float64 cannot hold exactly (Go decodes ids into float64: such an id is echoed rounded or refused; the property quantifies over ids it can represent): outside the model's fidelity domain (still run, still judged by the direct oracle)
 }
 
 func hexs(b []byte) string { return fmt.Sprintf("%x", b) }
@@ -341,7 +344,7 @@ func runHTTPCase(l *invLog, c *httpCase, body []byte) {
 		c.Reply = hexs(rec.Body.Bytes())
 	}
 	c.Invs = l.take()
-	c.OutOfDomain = !utf8.Valid(body)
+	c.OutOfDomain = !utf8.Valid(body) || inexactID(body)
 	c.Oracle = httpOracle(c, body)
 }
 
@@ -605,3 +608,25 @@ func expectOf(g genReq) string {
 }
 
 func init() { families["http-bodies"] = httpBodiesFamily }
+
+var idLit = regexp.MustCompile(`(?i)"id"\s*:\s*(-?[0-9][0-9.eE+-]*)`)
+
+// inexactID: some "id" member holds a number literal that does not survive float64 (out of range, or echoed as a different decimal)
+func inexactID(body []byte) bool {
+	for _, m := range idLit.FindAllSubmatch(body, -1) {
+		lit := string(m[1])
+		f, err := strconv.ParseFloat(lit, 64)
+		if err != nil {
+			return true
+		}
+		want, ok := new(big.Rat).SetString(lit)
+		if !ok {
+			continue // not a number literal after all: the decoder rejects the body, nothing to round
+		}
+		// the id is echoed as the shortest decimal that reads back as f
+		if got, ok := new(big.Rat).SetString(strconv.FormatFloat(f, 'g', -1, 64)); !ok || got.Cmp(want) != 0 {
+			return true
+		}
+	}
+	return false
+}
